@@ -2,7 +2,7 @@
    Model: Schc.encode_length / Schc.decode_var (compressor._encode_length,
    decompressor._decode_variable_length_residue).  Only statements; proofs are in theories/SchcCodec.v. *)
 From Coq Require Import ZArith List Bool.
-From MS Require Import PyBase Bits Schc SchcSpec SchcCodec.
+From MS Require Import PyBase Buffer Bits BufferAbs Schc SchcSpec SchcCodec SchcBytes BytesC08C17C18.
 Import ListNotations.
 Open Scope Z_scope.
 
@@ -28,6 +28,23 @@ Proof. exact (decompress_field_spec ct pos rf v res rest). Qed.
 Theorem c17_overflow n : 65536 <= n -> encode_length n = Exc AssertionError.
 Proof. exact (encode_length_overflow n). Qed.
 
+(* ---- the same at the byte level (SchcBytes.bencode_length / bdecode_var, the functions compared raw with the code) ---- *)
+Theorem c17_encode_bytes n : 0 <= n < 65536 ->
+  exists p, bencode_length n = Ok p /\ canon p /\ bside p = LEFT /\ abs p = spec_size n /\
+            blen p = (if n <? 15 then 4 else if n <? 255 then 12 else 28).
+Proof. exact (c17b_encode n). Qed.
+Theorem c17_overflow_bytes n : 65536 <= n -> bencode_length n = Exc AssertionError.
+Proof. exact (c17b_overflow n). Qed.
+(* whatever the padding side of what follows, and also when fewer than n bits follow (then what is there comes back) *)
+Theorem c17_roundtrip_bytes n p rest s : 0 <= n < 65536 -> canon rest ->
+  bencode_length n = Ok p -> b_add p rest = Ok s ->
+  exists r, bdecode_var s = Ok (r, spec_size_width n + n) /\ canon r /\ blen r = Z.min n (blen rest) /\
+            abs r = firstn (Z.to_nat n) (abs rest).
+Proof. exact (c17b_roundtrip_any n p rest s). Qed.
+Theorem c17_injective_bytes n m p q : 0 <= n < 65536 -> 0 <= m < 65536 ->
+  bencode_length n = Ok p -> bencode_length m = Ok q -> is_prefix (abs p) (abs q) = true -> n = m.
+Proof. exact (c17b_prefix_free n m p q). Qed.
+
 (* non-vacuity: the three width classes, and a variable-length LSB field meeting the hypotheses of c17_field *)
 Example c17_ex_widths : encode_length 14 = Ok [true;true;true;false] /\ zlen (spec_size 15) = 12 /\ zlen (spec_size 255) = 28.
 Proof. vm_compute. repeat split; reflexivity. Qed.
@@ -43,3 +60,7 @@ Print Assumptions c17_roundtrip.
 Print Assumptions c17_injective.
 Print Assumptions c17_field.
 Print Assumptions c17_overflow.
+Print Assumptions c17_encode_bytes.
+Print Assumptions c17_overflow_bytes.
+Print Assumptions c17_roundtrip_bytes.
+Print Assumptions c17_injective_bytes.
